@@ -16,6 +16,9 @@ for k in (1, 2, 3):
     tag = "%d" % k if rnd == "a" else "%s%d" % (rnd, k)
     dst = os.path.join(ROOT, "seeded", pid, "%s-%s" % (pid, tag))
     os.makedirs(dst, exist_ok=True)
+    prev = {}
+    if os.path.exists(os.path.join(dst, "meta.json")):
+        prev = json.load(open(os.path.join(dst, "meta.json"))).get("checks_run", {})
     for f in ("patch.diff", "demo_test.go.txt", "meta.json"):
         shutil.copy(os.path.join(src, f), os.path.join(dst, f))
     if subprocess.run("git -C /repo diff --quiet", shell=True).returncode:
@@ -38,9 +41,10 @@ for k in (1, 2, 3):
     subprocess.run("git -C /repo checkout -- .", shell=True)
     subprocess.run("git checkout -- evidence", shell=True, cwd=ROOT)
     meta = json.load(open(os.path.join(dst, "meta.json")))
+    results = dict(prev, **results)
     caught = [c for c, r in results.items() if r["exit"] == 1 and r["violations"]]
     meta["checks_run"] = results
-    meta["result"] = ("caught by " + ", ".join(caught)) if caught else "MISSED by " + ", ".join(checks)
+    meta["result"] = ("caught by " + ", ".join(caught)) if caught else "MISSED by " + ", ".join(sorted(results))
     meta["ran"] = "git -C /repo apply seeded/%s/%s-%s/patch.diff; ./check <id> --tier quick; git -C /repo checkout -- ." % (pid, pid, tag)
     json.dump(meta, open(os.path.join(dst, "meta.json"), "w"), indent=1)
     print("%s-%s: %s | files: %s | %s" % (pid, tag, meta["result"], " ".join(files.split()[:1]), "; ".join(d[:110] for r in results.values() for d in r["what"][:1])))
